@@ -115,6 +115,7 @@ RangeSemSane(N, L) == \A r \in AllRanges(N), len \in L :
 (*             leak (name of the sentinel seen in the body), enc (Content-Encoding or ""), wlen (body bytes before decoding)] *)
 FName(n) == "f" \o ToString(n)
 IndexFile == "d/index.html"
+AIndexFile == "a/index.html"        \* "a" is a directory and, for the virtual-host rewriter, a host name
 CRange(a, b, len) == "bytes " \o ToString(a) \o "-" \o ToString(b) \o "/" \o ToString(len)
 Slice(f, a, b) == IF a > b THEN << >> ELSE << [f |-> f, from |-> a, to |-> b] >>
 NoFileBytes(runs) == \A i \in DOMAIN runs : runs[i].f = "?"
@@ -149,7 +150,8 @@ FileOblig(f, len, abr, co, ae, m, r, o) ==
 Oblig(files, abr, co, ae, tgt, m, r, o) ==
     /\ ~o.leak
     /\ \A i \in DOMAIN o.runs : o.runs[i].f \in DOMAIN files \cup {"?"}          \* never a byte from outside the root
-    /\ CASE tgt \in {"dir", "any"} -> \/ NoFileBytes(o.runs)             \* 4xx, generated index page, redirect, ...
+    /\ CASE tgt \in {"dir", "any"} -> \/ /\ NoFileBytes(o.runs)          \* 4xx, generated index page, redirect, ...
+                                          /\ o.status \in {200, 206} /\ m = "GET" => o.cl = o.wlen       \* CL = body bytes
                                        \/ \E f \in DOMAIN files : FileOblig(f, files[f], abr, co, ae, m, r, o)   \* index file / normalised path
          [] tgt = "none" -> NotFoundOK(o)
          [] OTHER        -> tgt \in DOMAIN files /\ FileOblig(tgt, files[tgt], abr, co, ae, m, r, o)
